@@ -11,6 +11,10 @@ from histlib import deep_state
 from props import c03
 
 
+import nanite.fit as _nfit0
+DEFAULTS_AT_IMPORT = copy.deepcopy(dict(_nfit0.FP_DEFAULT))
+
+
 def api_probes(ctx):
     """APIs outside the history alphabet: get_initial_fit_parameters (returned object edited in place),
     compute_poc, model / residual functions, the rater"""
@@ -45,6 +49,54 @@ def api_probes(ctx):
         if stored["E"].value == 1.0:
             ctx.violation("stored-aliases-argument", "fit_properties['params_initial'] aliases the caller's object",
                           {"input": {"curve": cid}})
+        # every mutable object the library hands back in fit_properties is edited in place: neither the
+        # module-level defaults nor another curve may notice
+        import nanite.fit as nfit
+        snap = deep_state({k: v for k, v in nfit.FP_DEFAULT.items()})
+        with warnings.catch_warnings():
+            warnings.simplefilter("ignore")
+            victim = histlib.fresh(cid)
+            victim.fit_model(preprocessing=["compute_tip_position", "correct_tip_offset"])
+            ref0 = histlib.fresh(cid)
+            ref0.fit_model(preprocessing=["compute_tip_position", "correct_tip_offset"])
+            before = (ref0.fit_properties.get("hash"), ref0.fit_properties["params_fitted"]["E"].value)
+            fpv = victim.fit_properties
+            edited = []
+            for k in list(fpv.keys()):
+                v = fpv[k]
+                try:
+                    if isinstance(v, list) and len(v) == 2 and k == "range_x":
+                        v[0] = -5e-7
+                        edited.append(k)
+                    elif isinstance(v, list):
+                        v.append("correct_force_offset")
+                        edited.append(k)
+                    elif isinstance(v, dict):
+                        v["ftol" if k == "method_kws" else "correct_tip_offset"] = 1e-3 if k == "method_kws" else \
+                            {"method": "fit_constant_line"}
+                        edited.append(k)
+                except BaseException:  # noqa
+                    pass
+            other = histlib.fresh(cid)
+            other.fit_model(preprocessing=["compute_tip_position", "correct_tip_offset"])
+            after = (other.fit_properties.get("hash"), other.fit_properties["params_fitted"]["E"].value)
+        ctx.case({"probe": "returned-settings-edited", "curve": cid, "edited": edited}, nontrivial=f"probe:fpedit:{cid}",
+                 bucket="stream=api-probes")
+        snap2 = deep_state({k: v for k, v in nfit.FP_DEFAULT.items()})
+        if snap2 != snap or after != before:
+            changed = [k for k in nfit.FP_DEFAULT if deep_state(nfit.FP_DEFAULT[k]) != dict(snap[1]).get(k)] \
+                if snap[0] == "D" else []
+            # restore the defaults for the rest of the run
+            for k in ("range_x", "method_kws", "preprocessing", "preprocessing_options"):
+                pass
+            ctx.violation("returned-settings-alias-module-defaults",
+                          f"editing the objects in fit_properties of one curve in place ({edited}) changed the "
+                          f"module-level defaults {changed} / the fit of another, fresh curve (hash, E: {before} -> "
+                          f"{after})", {"history": ["a.fit_model(preprocessing=P1)", "edit a.fit_properties[k] in place "
+                                                    f"for k in {edited}", "b = fresh curve; b.fit_model(preprocessing=P1)"],
+                                        "observed": [repr(after)], "expected": [repr(before)]})
+            import copy as _c
+            nfit.FP_DEFAULT.update(_c.deepcopy(DEFAULTS_AT_IMPORT))
         # numerical functions must not modify their array arguments
         f = np.array(idnt["force"], copy=True)
         for m in [f.identifier for f in poc.POC_METHODS]:
